@@ -34,6 +34,82 @@ def _array_literal_ops(zf, op, depth=0):
     return None
 
 
+def _byte_iter_events(ctx, cfg, fn, op, _depth=0):
+    """events (atoms, width, kind) of an iterator of octets handed to `extend`: `parts.flat_map(|x| x.encode())` where parts is a chain of
+    `list.iter()`, `once(x)`, array literals; also such an iterator returned by a local helper (atoms instantiated at the call).  None if unknown."""
+    prog, eng, za = ctx.prog(cfg), ctx.eng(cfg), ctx.zone(cfg)
+    if op.get('k') not in ('copy', 'move') or op['pl'].get('p') or _depth > 4:
+        return None
+    fd = eng.fndep(fn)
+    za.summary(fn)
+    zf = za.zf(fn)
+    d = zf.single_def(op['pl']['l'])
+    if d is None:
+        return None
+    if d[0] == 'assign' and d[2]['rv']['k'] == 'use' and d[2]['rv']['op']['k'] in ('copy', 'move'):
+        return _byte_iter_events(ctx, cfg, fn, d[2]['rv']['op'], _depth)
+    if d[0] != 'call':
+        return None
+    t = d[2]
+    cal = t.get('callee') or ''
+    tgt = local_target(eng, t)
+    if tgt is not None and tgt != fn and tgt in prog.bodies:
+        sub = _byte_iter_events(ctx, cfg, tgt, {'k': 'copy', 'pl': {'l': 0}}, _depth + 1)
+        if sub is None:
+            return None
+        out = []
+        for sat, w, kind in sub:
+            inst = set()
+            for x in sat:
+                inst |= {y for y in fd._inst_atom(x, t['args']) if strip(y)[0] == 'p'}
+            out.append((inst, w, kind))
+        return out
+    if cal == 'std::iter::Iterator::flat_map' and len(t['args']) == 2 and t['args'][1]['k'] in ('copy', 'move'):
+        ci = fd._closure_info(t['args'][1]['pl']['l'])
+        n = parse_array_len(prog.bodies[ci[0]].local_ty(0)) if ci and ci[0] in prog.bodies else None
+        if n is None or not str(n).isdigit():
+            return None
+        parts = _iter_parts(zf, fd, t['args'][0])
+        if parts is None:
+            return None
+        return [(at, str(n), kind) for at, kind in parts]
+    return None
+
+
+def _iter_parts(zf, fd, op, depth=0):
+    """[(atoms, 'each' | 'append')] for the items of an iterator operand built from chain / once / iter / array literals"""
+    if op.get('k') not in ('copy', 'move') or depth > 8:
+        return None
+    lit = _array_literal_ops(zf, op)
+    if lit is not None:
+        return [(set(x for x in fd.read_op(o) if strip(x)[0] == 'p'), 'append') for o in lit]
+    pl = op['pl']
+    ty = zf.body.local_ty(pl['l']).replace('&mut ', '').lstrip('&').strip()
+    if ty.startswith(('[', 'std::vec::Vec<')):
+        return [(set(x for x in fd.read_op(op) if strip(x)[0] == 'p'), 'each')]
+    if pl.get('p'):
+        return None
+    d = zf.single_def(pl['l'])
+    if d is None:
+        return None
+    if d[0] == 'assign' and d[2]['rv']['k'] in ('use', 'ref'):
+        src = d[2]['rv'].get('pl') or d[2]['rv'].get('op', {}).get('pl')
+        return _iter_parts(zf, fd, {'k': 'copy', 'pl': src}, depth + 1) if src is not None else None
+    if d[0] != 'call':
+        return None
+    t = d[2]
+    cal = t.get('callee') or ''
+    if cal in ('std::iter::Iterator::chain',) and len(t['args']) == 2:
+        a, b = _iter_parts(zf, fd, t['args'][0], depth + 1), _iter_parts(zf, fd, t['args'][1], depth + 1)
+        return None if a is None or b is None else a + b
+    if cal in ('std::iter::once', 'core::iter::once') and t['args']:
+        return [(set(x for x in fd.read_op(t['args'][0]) if strip(x)[0] == 'p'), 'append')]
+    if cal in ('core::slice::<impl [T]>::iter', 'std::iter::IntoIterator::into_iter', 'std::iter::Iterator::copied', 'std::iter::Iterator::cloned',
+               'std::iter::Iterator::by_ref', 'std::ops::Deref::deref', 'std::vec::Vec::<T, A>::as_slice') and t['args']:
+        return _iter_parts(zf, fd, t['args'][0], depth + 1)
+    return None
+
+
 def _append_events(ctx, cfg, fn, root, _depth=0):
     """ordered (atoms, width, kind) appended to the byte buffer held in local `root` of fn; atoms in fn's own parameter terms.
     kind 'append' = once, 'each' = once per element of the container the atoms name.  Forms: extend_from_slice, for_each / extend(flat_map)
@@ -78,7 +154,25 @@ def _append_events(ctx, cfg, fn, root, _depth=0):
         atoms = {a for a in mf.event_atoms(e) if strip(a)[0] == 'p'}
         if cal == 'std::vec::Vec::<T, A>::extend_from_slice':
             ln = zf.len_of_place(t['args'][1]['pl']) if t['args'][1]['k'] in ('copy', 'move') else None
-            out.append((atoms, tfmt(ln) if ln is not None else '?', 'append'))
+            w = tfmt(ln) if ln is not None else '?'
+            # inside `for x in [a, b, c] { buf.extend_from_slice(enc(x)) }` / `for x in list { .. }`: once per item, in order
+            loop_it = None
+            for h, blocks in zf.loops:
+                if e['b'] in blocks:
+                    for bj in blocks:
+                        tt = b.blocks[bj]['term']
+                        if tt['k'] == 'call' and (tt.get('callee') or '') == 'std::iter::Iterator::next' and tt['args'] and tt['args'][0]['k'] in ('copy', 'move'):
+                            src = fd.resolve_place(tt['args'][0]['pl'])[0]
+                            loop_it = {'k': 'copy', 'pl': {'l': src}}
+            if loop_it is not None:
+                lit = _array_literal_ops(zf, loop_it)
+                if lit is not None:
+                    for o in lit:
+                        out.append((set(x for x in fd.read_op(o) if strip(x)[0] == 'p'), w, 'append'))
+                else:
+                    out.append((atoms, w, 'each'))
+            else:
+                out.append((atoms, w, 'append'))
         elif cal == 'std::iter::Iterator::for_each':
             ci = None
             for a in t['args']:
@@ -99,7 +193,11 @@ def _append_events(ctx, cfg, fn, root, _depth=0):
             if width != '?' and src is not None:
                 per_element(src, width, atoms)
             else:
-                out.append((atoms, '?', 'extend'))
+                evs = _byte_iter_events(ctx, cfg, fn, t['args'][1])
+                if evs is not None:
+                    out.extend(evs)
+                else:
+                    out.append((atoms, '?', 'extend'))
         elif cal in ('std::vec::Vec::<T, A>::reserve', 'std::vec::Vec::<T, A>::reserve_exact'):
             continue
         else:
@@ -249,8 +347,14 @@ def rule_reader_writer(ctx, cfg='prod-all'):
     got = {k: v for k, v in (rl or {}).items() if k in exp}
     # a field whose source slice cannot be traced (filled through a loop over chunks, a closure ...) makes the comparison undecided,
     # not wrong; only a traced range that differs from the writer's is a violation
-    verdict = None if (rl is None or any(got.get(k) is None for k in exp)) else (got == exp)
-    if rl is not None and any(got.get(k) is not None and got[k] != exp[k] for k in exp):
+    def coarser(g, e):
+        # the traced source is a larger slice that contains the expected range (the field is one chunk of it: position not traced)
+        try:
+            return int(g[0]) <= int(e[0]) and int(e[1]) <= int(g[1]) and g != e
+        except (TypeError, ValueError):
+            return False
+    verdict = None if (rl is None or any(got.get(k) is None or coarser(got[k], exp[k]) for k in exp)) else (got == exp)
+    if rl is not None and any(got.get(k) is not None and got[k] != exp[k] and not coarser(got[k], exp[k]) for k in exp):
         verdict = False
     yield Ob('RF-N', '%s#reader-offsets' % fn, verdict, 'the reader takes each fixed field from the offset at which the writer puts it', fn, fact=got, expected=exp)
     wl = writer_layout(ctx, cfg, 'bbsplus::proof::BBSplusPoKSignature::to_bytes')
@@ -262,8 +366,9 @@ def rule_reader_writer(ctx, cfg='prod-all'):
             off += int(w)
         else:
             break
-    yield Ob('RF-N', 'BBSplusPoKSignature#reader~writer', all(wmap.get(k) == v for k, v in exp.items()), 'writer offsets computed from the append order equal the reader ranges',
-             fn, fact=wmap, expected=exp)
+    unknown_prefix = any(kind not in ('append', 'each') or not str(w).isdigit() for f, w, kind in wl[:len(exp)])
+    yield Ob('RF-N', 'BBSplusPoKSignature#reader~writer', None if unknown_prefix else all(wmap.get(k) == v for k, v in exp.items()),
+             'writer offsets computed from the append order equal the reader ranges', fn, fact=wmap, expected=exp)
     fn2 = 'bbsplus::signature::BBSplusSignature::from_bytes'
     rl2 = reader_layout(ctx, cfg, fn2, 'BBSplusSignature', param='data')
     yield Ob('RF-N', '%s#reader-offsets' % fn2, (rl2 == {'A': ('0', '48'), 'e': ('48', '80')}) if rl2 is not None else None, 'signature octets = A (48) || e (32)', fn2,
